@@ -326,7 +326,7 @@ func ReaderFunc(nshard int, read interface{}, prags ...Pragma) Slice {
 	if !ok || fn.In.NumOut() < 3 || fn.In.Out(0).Kind() != reflect.Int {
 		typecheck.Panicf(1, "readerfunc: invalid reader function type %T", read)
 	}
-	if fn.Out.Out(0).Kind() != reflect.Int || fn.Out.Out(1) != typeOfError {
+	if fn.Out.NumOut() != 2 || fn.Out.Out(0).Kind() != reflect.Int || fn.Out.Out(1) != typeOfError {
 		typecheck.Panicf(1, "readerfunc: function %T does not return (int, error)", read)
 	}
 	s.stateType = fn.In.Out(1)
